@@ -10,6 +10,8 @@ import RtenVerif.Lemmas.Squeeze
 import RtenVerif.Lemmas.RowMajor
 import RtenVerif.Lemmas.Clip
 import RtenVerif.Lemmas.SliceCopy
+import RtenVerif.Lemmas.Append
+import RtenVerif.Props.C08
 
 /-!
 # C09 — Layout transformations match a reference array model
@@ -1068,6 +1070,222 @@ theorem c09_slice_copy_ranges (t : TState) (items : List SliceItem)
       unfold NArr.sliceCopy
       rw [hsh, h3]
       rfl
+
+/-! ## T4: `append` (element-wise write path) -/
+
+theorem getD_append_left (a b : List Nat) (i : Nat) (h : i < a.length) :
+    (a ++ b).getD i 0 = a.getD i 0 := by
+  simp only [List.getD_eq_getElem?_getD, List.getElem?_append_left h]
+
+/-- The storage after the element-wise write loop of `append`
+(`slice_axis_mut(axis, old..new).copy_from(other)` after `resize`): every old element is
+untouched and every element of `other` sits at the offset of its index in the grown layout. -/
+theorem append_write_core (store : List Nat) (d : Dims) (axis : Nat) (oshape : List Nat)
+    (g : List Nat → Nat) (fill : Nat) (hk : axis < d.length)
+    (hno : mayOverlap (resizeDim d axis ((d.getD axis (0, 0)).1 + oshape.getD axis 0)) = false)
+    (hwf : minDataLen d ≤ store.length)
+    (hosh : sizes (resizeDim (resizeDim d axis ((d.getD axis (0, 0)).1 + oshape.getD axis 0)) axis
+      (oshape.getD axis 0)) = oshape) :
+    let old := (d.getD axis (0, 0)).1
+    let nd := resizeDim d axis (old + oshape.getD axis 0)
+    let sd := resizeDim nd axis (oshape.getD axis 0)
+    let st1 := if store.length < minDataLen nd then
+      store ++ List.replicate (minDataLen nd - store.length) fill else store
+    let start := if numelD sd = 0 then 0 else old * (strides nd).getD axis 0
+    let st := writeAll st1 start sd oshape g
+    (∀ idx, validIdx (sizes d) idx = true → st.getD (offset nd idx) 0 = store.getD (offset d idx) 0) ∧
+    (∀ idx', validIdx oshape idx' = true → st.getD (offset nd (shiftIdx axis old idx')) 0 = g idx') := by
+  intro old nd sd st1 start st
+  obtain ⟨G1, G2, G3⟩ := append_geometry d axis (oshape.getD axis 0) hk
+  have hst1 : minDataLen nd ≤ st1.length ∧ store.length ≤ st1.length := by
+    simp only [st1]
+    split
+    · rw [List.length_append, List.length_replicate]; omega
+    · omega
+  have hstride : (strides nd).getD axis 0 = (d.getD axis (0, 0)).2 := by
+    rw [strides_getD]; exact resizeDim_stride d axis _
+  have hfold : st = writeFold (idxs oshape) (fun idx => start + offset sd idx) g st1 := rfl
+  -- positions of the writes
+  have hpos : ∀ idx', validIdx oshape idx' = true →
+      start + offset sd idx' = offset nd (shiftIdx axis old idx') ∧
+      validIdx (sizes nd) (shiftIdx axis old idx') = true := by
+    intro idx' hv
+    have hv' : validIdx (sizes sd) idx' = true := by rw [hosh]; exact hv
+    have hne : numelD sd ≠ 0 := by
+      have := numel_pos_of_valid hv'
+      unfold numelD; omega
+    obtain ⟨g1, g2, _⟩ := G1 idx' hv'
+    refine ⟨?_, g1⟩
+    show (if numelD sd = 0 then 0 else old * (strides nd).getD axis 0) + _ = _
+    rw [if_neg hne, hstride]
+    exact g2
+  have hinjnd : ∀ a b, validIdx (sizes nd) a = true → validIdx (sizes nd) b = true →
+      offset nd a = offset nd b → a = b := fun a b ha hb hab =>
+    c08_no_overlap_injective nd a b hno (validIdx_ValidIdx nd a ha) (validIdx_ValidIdx nd b hb) hab
+  refine ⟨?_, ?_⟩
+  · intro idx hv
+    obtain ⟨g1, g2, g3⟩ := G2 idx hv
+    rw [hfold, writeFold_untouched]
+    · have hlt : offset d idx < store.length := by
+        have := offset_lt_minDataLen d idx hv; omega
+      rw [g2]
+      simp only [st1]
+      split
+      · exact getD_append_left _ _ _ hlt
+      · rfl
+    · intro idx' hmem heq
+      have hv' := mem_idxs.mp hmem
+      obtain ⟨p1, p2⟩ := hpos idx' hv'
+      have heq : start + offset sd idx' = offset nd idx := heq
+      rw [p1] at heq
+      have := hinjnd _ _ p2 g1 heq
+      have hge := (G1 idx' (by rw [hosh]; exact hv')).2.2
+      rw [this] at hge
+      omega
+  · intro idx' hv
+    obtain ⟨p1, p2⟩ := hpos idx' hv
+    rw [← p1, hfold]
+    apply writeFold_written (idxs oshape) (fun idx => start + offset sd idx) g st1 idx'
+    · intro a hmem heq
+      have hva := mem_idxs.mp hmem
+      obtain ⟨q1, q2⟩ := hpos a hva
+      have heq : start + offset sd a = start + offset sd idx' := heq
+      rw [q1, p1] at heq
+      have := hinjnd _ _ q2 p2 heq
+      exact G3 a idx' (by rw [hosh]; exact hva) (by rw [hosh]; exact hv) this
+    · show start + offset sd idx' < st1.length
+      rw [p1]
+      have := offset_lt_minDataLen nd _ p2
+      omega
+    · exact Or.inr (mem_idxs.mpr hv)
+
+theorem sizes_resizeDim (d : Dims) (axis c : Nat) :
+    sizes (resizeDim d axis c) = (sizes d).set axis c := by
+  induction axis generalizing d with
+  | zero => cases d <;> simp [resizeDim, sizes]
+  | succ k ih =>
+    cases d with
+    | nil => simp [resizeDim, sizes]
+    | cons p ds =>
+      have := ih ds
+      simp only [resizeDim, sizes, List.getElem?_cons_succ, List.map_cons, List.set_cons_succ] at this ⊢
+      cases hds : ds[k]? with
+      | none =>
+        simp only [hds] at this ⊢
+        rw [← this]
+        rfl
+      | some q =>
+        simp only [hds, List.set_cons_succ, List.map_cons] at this ⊢
+        rw [this]
+
+theorem shape_match_set (a o : List Nat) (axis : Nat) (hl : a.length = o.length)
+    (hall : ∀ k, k < a.length → k = axis ∨ a.getD k 0 = o.getD k 0) :
+    ((a.set axis (a.getD axis 0 + o.getD axis 0)).set axis (o.getD axis 0)) = o := by
+  have key : a.set axis (o.getD axis 0) = o := by
+    apply List.ext_getElem
+    · simp [hl]
+    · intro k h1 h2
+      have hk : k < a.length := by simpa using h1
+      rw [List.getElem_set]
+      split
+      · rename_i he
+        subst he
+        simp [List.getD_eq_getElem?_getD, List.getElem?_eq_getElem h2]
+      · rename_i hne
+        rcases hall k hk with h | h
+        · exact absurd h.symm hne
+        · simpa [List.getD_eq_getElem?_getD, List.getElem?_eq_getElem hk,
+            List.getElem?_eq_getElem h2] using h
+  rw [List.set_set]
+  exact key
+
+/-- **C09.T4 append (partial: element-wise write path)**.  Owned tensor (data starts at 0, window
+= whole `Vec`, no internal overlap, storage covers the layout).  When `append(axis, other)`
+succeeds through the resize + `slice_axis_mut(..).copy_from(other)` path, the layout is the old
+one grown along `axis`, every previously valid index still reads the same element, and index
+`idx'` of `other` is read at `idx'` shifted by the old size along `axis`.
+Missing for the full statement: the contiguous fast path (`copy_into_slice` into the spare
+capacity when the grown layout is contiguous), which is tied by the correspondence check only. -/
+theorem c09_append_partial (t t' : TState) (axis cap : Nat) (oshape : List Nat)
+    (hb : t.view.base = 0) (hl : t.view.len = t.store.length)
+    (hno : mayOverlap t.view.dims = false) (hwf : WF t.view)
+    (hslow : ¬ (isContiguous (resizeDim t.view.dims axis
+        ((sizes t.view.dims).getD axis 0 + oshape.getD axis 0)) = true ∧
+      t.store.length + numel oshape = minDataLen (resizeDim t.view.dims axis
+        ((sizes t.view.dims).getD axis 0 + oshape.getD axis 0))))
+    (h : appendOp t axis cap oshape = .ok t') :
+    t'.view.dims = resizeDim t.view.dims axis ((sizes t.view.dims).getD axis 0 + oshape.getD axis 0) ∧
+    (∀ idx, validIdx (sizes t.view.dims) idx = true → t'.arr.get idx = t.arr.get idx) ∧
+    (∀ idx', validIdx oshape idx' = true →
+      t'.arr.get (shiftIdx axis ((sizes t.view.dims).getD axis 0) idx') =
+        1000 + (idxs oshape).idxOf idx') := by
+  unfold appendOp at h
+  rw [materialize_owned t hb hl hno hwf] at h
+  simp only [bind, Except.bind] at h
+  split at h
+  · cases h
+  · rename_i hsm
+    split at h
+    · cases h
+    · rename_i hax
+      have hk : axis < t.view.dims.length := by omega
+      split at h
+      · cases h
+      · rename_i hcap
+        simp only [pure, Except.pure] at h
+        injection h with h
+        subst h
+        have hno' : mayOverlap (resizeDim t.view.dims axis
+            ((sizes t.view.dims).getD axis 0 + oshape.getD axis 0)) = false := by
+          cases hm : mayOverlap (resizeDim t.view.dims axis
+            ((sizes t.view.dims).getD axis 0 + oshape.getD axis 0)) with
+          | false => rfl
+          | true => exact absurd (Or.inr hm) hcap
+        -- shapes agree off-axis
+        have hsm' : (t.view.dims.length == oshape.length &&
+            (List.range t.view.dims.length).all
+              (fun k => k == axis || (sizes t.view.dims).getD k 0 == oshape.getD k 0)) = true := by
+          cases hx : (t.view.dims.length == oshape.length &&
+            (List.range t.view.dims.length).all
+              (fun k => k == axis || (sizes t.view.dims).getD k 0 == oshape.getD k 0)) with
+          | true => rfl
+          | false => rw [hx] at hsm; exact absurd rfl hsm
+        simp only [Bool.and_eq_true, beq_iff_eq, List.all_eq_true, List.mem_range,
+          Bool.or_eq_true] at hsm'
+        have hosh := (shape_match_set (sizes t.view.dims) oshape axis (by simpa using hsm'.1)
+          (fun k hk' => hsm'.2 k (by simpa using hk')))
+        rw [← sizes_resizeDim, ← sizes_resizeDim] at hosh
+        rw [sizes_getD] at hosh hno' ⊢
+        obtain ⟨c1, c2⟩ := append_write_core t.store t.view.dims axis oshape
+          (fun idx => 1000 + (idxs oshape).idxOf idx)
+          (1000 + (idxs oshape).idxOf ((idxs oshape).headD [])) hk hno' (by unfold WF at hwf; omega) hosh
+        obtain ⟨_, G2, _⟩ := append_geometry t.view.dims axis (oshape.getD axis 0) hk
+        obtain ⟨G1, _, _⟩ := append_geometry t.view.dims axis (oshape.getD axis 0) hk
+        refine ⟨rfl, ?_, ?_⟩
+        · intro idx hv
+          obtain ⟨g1, _, _⟩ := G2 idx hv
+          unfold TState.arr denote
+          rw [NArr.get_ofFn _ _ _ (by simpa [sizes_getD] using g1), NArr.get_ofFn _ _ _ hv, hb]
+          simp only [Nat.zero_add, sizes_getD, Nat.add_sub_cancel_left]
+          exact c1 idx hv
+        · intro idx' hv
+          have hv' : validIdx (sizes (resizeDim (resizeDim t.view.dims axis
+              ((t.view.dims.getD axis (0, 0)).1 + oshape.getD axis 0)) axis (oshape.getD axis 0))) idx' = true := by
+            rw [hosh]; exact hv
+          obtain ⟨g1, _, _⟩ := G1 idx' hv'
+          unfold TState.arr denote
+          rw [NArr.get_ofFn _ _ _ (by simpa [sizes_getD] using g1)]
+          simp only [Nat.zero_add, sizes_getD, Nat.add_sub_cancel_left]
+          exact c2 idx' hv
+
+/-- Non-vacuity: an owned 2×3 tensor with row stride 4 (room for one more column) takes the
+element-wise write path; evaluated result. -/
+example : (appendOp ⟨[0, 1, 2, 3, 4, 5, 6, 7], ⟨0, 8, [(2, 4), (3, 1)]⟩⟩ 1 8 [2, 1]).map TState.arr =
+      .ok ⟨[2, 4], [0, 1, 2, 1000, 4, 5, 6, 1001]⟩ ∧
+    mayOverlap [(2, 4), (3, 1)] = false ∧ WF ⟨0, 8, [(2, 4), (3, 1)]⟩ ∧
+    ¬ (isContiguous (resizeDim [(2, 4), (3, 1)] 1 (3 + 1)) = true ∧ 8 + numel [2, 1] =
+      minDataLen (resizeDim [(2, 4), (3, 1)] 1 (3 + 1))) :=
+  ⟨by rfl, by decide, by unfold WF; decide, by decide⟩
 
 /-! ## T2: chains of operations compose -/
 
